@@ -1881,8 +1881,11 @@ class BootstrapElectionModel(BaseElectionModel):
             # how many states have lower_q (or more) realizations with GOP victory
             lower_states = np.mean(agg_pred_margin_dist < 0, axis=1) > lower_q
 
-            potential_losses = pred_states - (~lower_states).astype(int)
-            potential_gains = upper_states.astype(int) - pred_states
+            # a contest can only be lost if we predict it to be won and only be gained if we predict it to be lost,
+            # otherwise (e.g. a contest without any votes, whose margin realizations are all exactly zero) these
+            # would be negative and move the bounds to the wrong side of the prediction
+            potential_losses = np.clip(pred_states - (~lower_states).astype(int), 0, None)
+            potential_gains = np.clip(upper_states.astype(int) - pred_states, 0, None)
 
         if self.called_contests is not None:
             # if there is a call, there is no uncertainty in the outcome
